@@ -279,8 +279,15 @@ def check_otsu(ctx: Ctx):
     h = hist[0]
     counts, edges = (U(e) for e in h.targets[0].elts)
     b = kwarg(h.value, "bins") or (h.value.args[1] if len(h.value.args) > 1 else None)
+    if b is not None:
+        # the bin count must be the caller's request itself (the parameter, at most through int()), not a value derived from the data
+        b = fv.expand(b, h, stop=(fi.params[0],), allow_mutated=True)
+        if isinstance(b, ast.Call) and U(b.func) == "int" and len(b.args) == 1:
+            b = b.args[0]
+        if isinstance(b, ast.Name) and not all(d is fv.cfg.entry for d in fv.defs_reaching(b.id, h)):
+            b = None
     okh = b is not None and U(b) == "nbins" and U(h.value.args[0]) in (f"{fi.params[0]}.flat", f"{fi.params[0]}.ravel()", fi.params[0], f"{fi.params[0]}.flatten()")
-    ctx.decide(okh, "THRESH", site + ":histogram", (fi, h), "histogram of all field values with nbins bins", f"histogram is `{U(h.value)}`")
+    ctx.decide(okh, "THRESH", site + ":histogram", (fi, h), "histogram of all field values with nbins bins", f"histogram is `{U(h.value)}` with bins = `{U(kwarg(h.value, 'bins') or (h.value.args[1] if len(h.value.args) > 1 else None))}` as defined at that point: not the requested number of bins over all field values (the documented 256-bin histogram)")
     env[counts] = Ori("F", "none")
     env[edges] = Ori("F", "none")
 
